@@ -3,7 +3,7 @@
 #   with the change: it applies to /repo's HEAD, the tree builds, the pinned test suite passes, the demo exits non-zero;
 #   without it: the demo exits 0.
 # On success the seed is stored as /verif/seeded/<id>/ (patch.diff, demo files, confirm.log); the worktree is removed.
-id=$1; sd=$2
+id=$1; sd=$2; dest=${3:-$1}
 wt=/tmp/confirm_$id
 log=/tmp/confirm_$id.log
 : > $log
@@ -22,7 +22,7 @@ git checkout -- . ; git status --short >> $log
 bash $sd/build_and_run.sh $wt > /tmp/confirm_$id.without 2>&1; wo=$?
 echo "$id: ctest_with_change_passes=$((1-t)) demo_exit_with_change=$w demo_exit_without_change=$wo" | tee -a $log
 if [ $t -eq 0 ] && [ $w -ne 0 ] && [ $wo -eq 0 ]; then
-  d=/verif/seeded/$id; mkdir -p $d
+  d=/verif/seeded/$dest; mkdir -p $d
   cp $sd/patch.diff $sd/demo.cpp $sd/build_and_run.sh $d/
   [ -f $sd/notes.md ] && cp $sd/notes.md $d/
   tail -25 /tmp/confirm_$id.with > $d/demo_with_change.txt
